@@ -43,6 +43,8 @@ struct HSlot<B: Sym> {
     vals: Vec<Value>,
     first_reads: Vec<Value>,
     dead: bool,
+    /// cleared at some point and only fed plain pushes since: a brand-new container fed `vals` is its twin (C08)
+    cleared: bool,
 }
 
 fn item_of<B: Sym>(v: &Value) -> Vec<B> {
@@ -114,7 +116,7 @@ const FORMS: [&str; 5] = ["slice", "vec", "ref_vec", "array", "ref_array"];
 
 /// Execute one scenario; append its events to `out`. `probe` = symbols whose code length is measured.
 pub fn run_scenario<B: Sym, W: Write>(run: u64, ops: &[Value], nslots: usize, probe: &[u64], out: &mut W) {
-    let mut slots: Vec<HSlot<B>> = (0..nslots).map(|_| HSlot { c: HuffmanContainer::default(), ids: vec![], vals: vec![], first_reads: vec![], dead: false }).collect();
+    let mut slots: Vec<HSlot<B>> = (0..nslots).map(|_| HSlot { c: HuffmanContainer::default(), ids: vec![], vals: vec![], first_reads: vec![], dead: false, cleared: false }).collect();
     writeln!(out, "{}", json!({"ev": "reset", "run": run, "ty": B::NAME, "nslots": nslots})).unwrap();
     let mut seq = 0u64;
     for (opi, op) in ops.iter().enumerate() {
@@ -222,8 +224,38 @@ pub fn run_scenario<B: Sym, W: Write>(run: u64, ops: &[Value], nslots: usize, pr
                                 Err(_) => cl = c.clone(),
                             }
                         }
-                        slots[d] = HSlot { c, ids: vec![], vals: vec![], first_reads: vec![], dead: false };
-                        writeln!(out, "{}", json!({"ev": "merge", "run": run, "seq": seq, "d": d + 1, "srcs": op["srcs"], "panic": false, "lens": lens})).unwrap();
+                        // C08: where a source had been cleared, the same merge over brand-new twins (fed what the cleared
+                        // containers received since) must yield a code for the same symbols
+                        let mut fresh_same = true;
+                        if srcs.iter().any(|&x| slots[x].cleared) {
+                            let twins: Vec<Option<HuffmanContainer<B>>> = srcs.iter().map(|&x| {
+                                if !slots[x].cleared {
+                                    return None;
+                                }
+                                let mut t = HuffmanContainer::<B>::default();
+                                for v in &slots[x].vals {
+                                    let item: Vec<B> = item_of(v);
+                                    t.push(item.as_slice());
+                                }
+                                Some(t)
+                            }).collect();
+                            let refs: Vec<&HuffmanContainer<B>> = srcs.iter().zip(twins.iter()).map(|(&x, t)| t.as_ref().unwrap_or(&slots[x].c)).collect();
+                            if let Ok(tc) = guarded(|| HuffmanContainer::<B>::merge_regions(refs.as_slice().iter().map(|r| *r))) {
+                                let mut tl: Vec<u64> = vec![];
+                                let mut cl = tc.clone();
+                                for &p in probe {
+                                    let sym = B::from_u64(p);
+                                    match guarded(|| cl.push([sym].as_slice())) {
+                                        Ok(_) => tl.push(p),
+                                        Err(_) => cl = tc.clone(),
+                                    }
+                                }
+                                let dom: Vec<u64> = lens.iter().map(|l| l[0].as_u64().unwrap()).collect();
+                                fresh_same = dom == tl;
+                            }
+                        }
+                        slots[d] = HSlot { c, ids: vec![], vals: vec![], first_reads: vec![], dead: false, cleared: false };
+                        writeln!(out, "{}", json!({"ev": "merge", "run": run, "seq": seq, "d": d + 1, "srcs": op["srcs"], "panic": false, "lens": lens, "fresh_same": fresh_same})).unwrap();
                     }
                 }
             }
@@ -256,6 +288,7 @@ pub fn run_scenario<B: Sym, W: Write>(run: u64, ops: &[Value], nslots: usize, pr
                         }
                         slots[d].ids = slots[sidx].ids.clone();
                         slots[d].vals = slots[sidx].vals.clone();
+                        slots[d].cleared = false;
                         slots[d].first_reads = slots[sidx].first_reads.clone();
                         slots[d].dead = false;
                         // the copy reads like the source at every issued index
@@ -280,6 +313,7 @@ pub fn run_scenario<B: Sym, W: Write>(run: u64, ops: &[Value], nslots: usize, pr
                 };
                 slots[s].ids.clear();
                 slots[s].vals.clear();
+                slots[s].cleared = true;
                 slots[s].first_reads.clear();
                 writeln!(out, "{}", json!({"ev": "clear", "run": run, "seq": seq, "s": s + 1, "panic": r.is_err()})).unwrap();
                 if r.is_err() {
